@@ -1,19 +1,23 @@
 package harness
 
 import (
+	"context"
 	"crypto/ecdsa"
 	"crypto/elliptic"
 	"crypto/rand"
 	"crypto/tls"
 	"crypto/x509"
 	"crypto/x509/pkix"
+	"encoding/json"
 	"encoding/pem"
 	"fmt"
+	"html"
 	"io"
 	"math/big"
 	"net/http"
 	"os"
 	"path/filepath"
+	"sort"
 	"strings"
 	"testing"
 	"testing/synctest"
@@ -29,7 +33,11 @@ import (
 // spec/RoutingTrace.tla.
 
 type RStep struct {
-	Op       string   `json:"op"` // deploy | remove | restart
+	Op       string   `json:"op"`              // deploy | remove | restart | rollout_deploy | rollout_set | rollout_stop | pause | stop | resume
+	Fault    string   `json:"fault,omitempty"` // none | invalid_target | unhealthy | cert | error_pages
+	Arg      int      `json:"arg,omitempty"`   // rollout_set: 1 = allowlist only, 2 = 100 %
+	Msg      string   `json:"msg,omitempty"`   // stop message
+	TOpt     int      `json:"topt,omitempty"`  // target-option variant of a deploy
 	Svc      string   `json:"svc,omitempty"`
 	Hosts    []string `json:"hosts,omitempty"`
 	Paths    []string `json:"paths,omitempty"`
@@ -128,32 +136,87 @@ func RunRoutingPlan(t *testing.T, scn int, rp *RoutingPlan, rec *Recorder, dir, 
 		// one fake target per deploy step
 		n := 0
 		for _, st := range rp.Steps {
-			if st.Op == "deploy" {
+			if st.Op == "deploy" || st.Op == "rollout_deploy" {
 				n++
-				plan.Targets[fmt.Sprintf("%sg%d", st.Svc, n)] = TargetScript{Then: ProbeOutcome{Class: "ok"}}
+				// probes take a moment, so that "not probed yet" is an observable condition (after a restart)
+				script := TargetScript{Then: ProbeOutcome{Class: "ok", DelayMs: 230}}
+				if st.Fault == "unhealthy" {
+					script = TargetScript{Then: ProbeOutcome{Class: "bad", Status: 500}}
+					// a second target of the same deploy that does become healthy
+					plan.Targets[fmt.Sprintf("%sg%dh", st.Svc, n)] = TargetScript{Then: ProbeOutcome{Class: "ok", DelayMs: 230}}
+				}
+				plan.Targets[fmt.Sprintf("%sg%d", st.Svc, n)] = script
 			}
 		}
 		w := &World{t: t, plan: plan, rec: rec, dir: dir}
 		w.setup(scn)
 		w.rec.Emit("reset", KV{"family": "routing", "urgent": true, "seed": 0, "note": rp.Note})
 		n = 0
+		noOpt := func(fault string, arg any) KV {
+			return KV{"hostsL": [][]string{}, "pathsL": [][]string{}, "tls": false, "redirect": false, "acme": false, "fault": fault, "arg": arg}
+		}
 		for i, st := range rp.Steps {
 			id := fmt.Sprintf("c%d", i+1)
+			fault := st.Fault
+			if fault == "" {
+				fault = "none"
+			}
+			w.cfgObs()
 			switch st.Op {
-			case "deploy":
+			case "deploy", "rollout_deploy":
 				n++
-				c := Cmd{ID: id, Kind: "deploy", Svc: st.Svc, Targets: []string{fmt.Sprintf("%sg%d", st.Svc, n)}, Hosts: st.Hosts, Paths: st.Paths,
-					TLS: st.TLS, TLSRedirect: st.Redirect, StripPrefix: st.Strip, DeployTimeoutMs: 2000, DrainTimeoutMs: 500}
+				c := Cmd{ID: id, Kind: st.Op, Svc: st.Svc, Targets: []string{fmt.Sprintf("%sg%d", st.Svc, n)}, Hosts: st.Hosts, Paths: st.Paths,
+					TLS: st.TLS, TLSRedirect: st.Redirect, StripPrefix: st.Strip, DeployTimeoutMs: 1500, DrainTimeoutMs: 500}
 				if st.TLS && !st.ACME {
 					c.CertPath, c.KeyPath = cert, key
 				}
-				w.execCmdX(c, KV{"hostsL": labelsList(st.Hosts), "pathsL": segsList(st.Paths), "tls": st.TLS, "redirect": st.Redirect, "acme": st.ACME})
-			case "remove":
-				w.execCmdX(Cmd{ID: id, Kind: "remove", Svc: st.Svc}, KV{"hostsL": [][]string{}, "pathsL": [][]string{}, "tls": false, "redirect": false, "acme": false})
+				switch st.TOpt {
+				case 1:
+					c.RespTimeoutMs, c.HCIntervalMs = 4000, 2000
+				case 2:
+					c.BufReq, c.BufResp, c.MaxMem, c.ForwardHdrs = true, true, 4096, true
+				}
+				unwritable := false
+				switch fault {
+				case "unhealthy":
+					c.Targets = []string{c.Targets[0] + "h", c.Targets[0]}
+				case "state_unwritable":
+					// the state file cannot be written while this command runs; the command must still succeed
+					os.Remove(w.statePath)
+					os.Mkdir(w.statePath, 0o755)
+					unwritable = true
+					fault = "none"
+				}
+				switch fault {
+				case "invalid_target":
+					c.Targets = []string{c.Targets[0], "not a valid target!"}
+				case "cert":
+					c.CertPath = filepath.Join(dir, "missing-cert.pem")
+				case "error_pages":
+					c.ErrorPages = filepath.Join(dir, "missing-error-pages")
+				}
+				if st.Op == "deploy" {
+					w.execCmdX(c, KV{"hostsL": labelsList(st.Hosts), "pathsL": segsList(st.Paths), "tls": st.TLS, "redirect": st.Redirect, "acme": st.ACME, "fault": fault, "arg": 0})
+				} else {
+					w.execCmdX(c, noOpt(fault, 0))
+				}
+				if unwritable {
+					os.Remove(w.statePath)
+					server.VerifSaveState(w.router)
+				}
+			case "rollout_set":
+				w.execCmdX(Cmd{ID: id, Kind: "rollout_set", Svc: st.Svc, Pct: []int{0, 0, 100}[st.Arg], Allow: []string{"vip"}}, noOpt("none", st.Arg))
+			case "rollout_stop", "resume", "remove":
+				w.execCmdX(Cmd{ID: id, Kind: st.Op, Svc: st.Svc}, noOpt("none", 0))
+			case "pause":
+				w.execCmdX(Cmd{ID: id, Kind: "pause", Svc: st.Svc, DrainTimeoutMs: 500, MaxPauseMs: 2000}, noOpt("none", 0))
+			case "stop":
+				w.execCmdX(Cmd{ID: id, Kind: "stop", Svc: st.Svc, DrainTimeoutMs: 500, Msg: st.Msg}, noOpt("none", st.Msg))
 			case "restart":
 				w.restart(id)
 			}
 			synctest.Wait()
+			w.cfgObs()
 			w.probeMatrix(rp)
 		}
 		time.Sleep(3 * time.Second)
@@ -174,7 +237,7 @@ func (w *World) execCmdX(cmd Cmd, extra KV) {
 func (w *World) restart(id string) {
 	w.rec.Emit("cmd_call", KV{"c": id, "kind": "restart", "svc": "", "targets": []string{}, "dto": 0, "drto": 0, "max_pause": 0, "msg": "",
 		"hosts": []string{}, "paths": []string{}, "pct": 0, "allow": []string{}, "hc_interval": 1000, "hc_timeout": 500,
-		"hostsL": [][]string{}, "pathsL": [][]string{}, "tls": false, "redirect": false, "acme": false})
+		"hostsL": [][]string{}, "pathsL": [][]string{}, "tls": false, "redirect": false, "acme": false, "fault": "none", "arg": 0})
 	w.mu.Lock()
 	var old []*server.HealthCheck
 	for hc, open := range w.hcs {
@@ -204,11 +267,47 @@ func (w *World) restart(id string) {
 	w.rec.Emit("cmd_ret", KV{"c": id, "res": res})
 }
 
+// cfgObs records the operator-visible configuration as one canonical string: `list`, every service's in-memory
+// options / targets / pause and rollout state, and the parsed state file.
+func (w *World) cfgObs() {
+	list := w.router.ListActiveServices()
+	names := make([]string, 0, len(list))
+	for n := range list {
+		names = append(names, n)
+	}
+	sort.Strings(names)
+	sums := []server.VerifServiceSummary{}
+	for _, n := range names {
+		if s := server.VerifRouterService(w.router, n); s != nil {
+			sums = append(sums, server.VerifSummarize(s))
+		}
+	}
+	var state any = []any{} // no state file yet = nothing deployed
+	if b, err := os.ReadFile(w.statePath); err == nil {
+		if json.Unmarshal(b, &state) != nil {
+			state = "undecodable:" + string(b)
+		} else if arr, ok := state.([]any); ok {
+			sort.Slice(arr, func(i, j int) bool {
+				return fmt.Sprint(arr[i].(map[string]any)["name"]) < fmt.Sprint(arr[j].(map[string]any)["name"])
+			})
+		}
+	}
+	b, _ := json.Marshal(map[string]any{"list": list, "services": sums, "state": state})
+	w.rec.Emit("cfg_obs", KV{"cfg": string(b)})
+}
+
 func (w *World) probeMatrix(rp *RoutingPlan) {
 	for _, https := range []bool{false, true} {
 		for _, h := range rp.ReqHosts {
 			for _, p := range rp.ReqPaths {
-				w.probeOne(h, p, https)
+				w.probeOne(h, p, https, "")
+			}
+		}
+	}
+	for _, h := range []string{"a.d", "b.a.d", "c.d"} {
+		for _, p := range []string{"/", "/api"} {
+			for _, ck := range []string{"vip", "zzz"} {
+				w.probeOne(h, p, false, ck)
 			}
 		}
 	}
@@ -223,12 +322,15 @@ func (w *World) probeMatrix(rp *RoutingPlan) {
 	}
 }
 
-func (w *World) probeOne(host, path string, https bool) {
+func (w *World) probeOne(host, path string, https bool, cookie string) {
 	addr := proxyHTTP
 	if https {
 		addr = proxyHTTPS
 	}
-	req, err := http.NewRequest("GET", "http://"+addr+path+"?q=1;b", nil)
+	// a held (paused) request is given up after a moment of virtual time
+	ctx, cancel := context.WithTimeout(context.Background(), 50*time.Millisecond)
+	defer cancel()
+	req, err := http.NewRequestWithContext(ctx, "GET", "http://"+addr+path+"?q=1;b", nil)
 	if err != nil {
 		w.rec.Emit("harness_error", KV{"what": err.Error()})
 		return
@@ -236,13 +338,25 @@ func (w *World) probeOne(host, path string, https bool) {
 	req.Host = host
 	req.Header.Set("X-Verif-Rid", "probe")
 	req.Header.Set("X-Verif-Kind", "plain")
+	if cookie != "" {
+		req.Header.Set("Cookie", "other=1; kamal-rollout="+cookie)
+	}
 	resp, err := w.clientTr.RoundTrip(req)
 	if err != nil {
-		w.rec.Emit("probe", KV{"h": hostLabels(host), "p": pathSegs(path), "https": https, "status": 0, "origin": "none", "loc_ok": false, "host": host, "path": path, "seen": ""})
+		w.rec.Emit("probe", KV{"h": hostLabels(host), "p": pathSegs(path), "https": https, "status": 0, "origin": "none", "loc_ok": false,
+			"host": host, "path": path, "seen": "", "cookie": cookie, "msg": "", "markup": false})
 		return
 	}
-	io.Copy(io.Discard, resp.Body)
+	body, _ := io.ReadAll(resp.Body)
 	resp.Body.Close()
+	msg, markup := "", false
+	if m := msgRe.FindSubmatch(body); m != nil {
+		txt := strings.TrimSpace(string(m[1]))
+		if !strings.HasPrefix(txt, "<strong>") {
+			msg = html.UnescapeString(txt)
+			markup = strings.ContainsAny(txt, "<>")
+		}
+	}
 	origin := resp.Header.Get("X-Verif-Origin")
 	if origin == "" {
 		origin = "proxy"
@@ -253,5 +367,5 @@ func (w *World) probeOne(host, path string, https bool) {
 		locOK = loc == "https://"+hostNoPort(host)+path+"?q=1;b"
 	}
 	w.rec.Emit("probe", KV{"h": hostLabels(host), "p": pathSegs(path), "https": https, "status": resp.StatusCode, "origin": origin,
-		"loc_ok": locOK, "host": host, "path": path, "seen": resp.Header.Get("X-Verif-Path")})
+		"loc_ok": locOK, "host": host, "path": path, "seen": resp.Header.Get("X-Verif-Path"), "cookie": cookie, "msg": msg, "markup": markup})
 }
